@@ -447,6 +447,13 @@ static bool mutate(const std::string& cls, Any* a, int P) {
     MUT_READ("Modular<int32_t>", Modular<int32_t>) MUT_READ("Modular<uint32_t>", Modular<uint32_t>) MUT_READ("Modular<int64_t>", Modular<int64_t>)
     MUT_READ("Modular<uint64_t>", Modular<uint64_t>) MUT_READ("Modular<float>", Modular<float>) MUT_READ("Modular<double>", Modular<double>)
     MUT_READ("Modular<Integer>", Modular<Integer>) MUT_READ("Modular<Log16>", Modular<Log16>)
+    if (cls == "GFqDom<int64_t>" || cls == "GFqDom<int32_t>") {          // GFqDom::read(istream&): "(p^k)" -> *this = GFqDom(p, k)
+        static const long GP[] = {3, 5, 2, 7}, GE[] = {2, 2, 4, 1};
+        std::stringstream ss; ss << "(" << GP[P] << "^" << GE[P] << ")";
+        if (cls == "GFqDom<int64_t>") { typedef GFqDom<int64_t> G; static_cast<Box<G, pr_gfq<G> >*>(a)->d.read(ss); }
+        else { typedef GFqDom<int32_t> G; static_cast<Box<G, pr_gfq<G> >*>(a)->d.read(ss); }
+        return true;
+    }
     if (cls == "ModularExtended<double>") return mutate_read_plain<RINGBOX(ModularExtended<double>) >(a, cls, P);
     if (cls == "ModularExtended<float>") return mutate_read_plain<RINGBOX(ModularExtended<float>) >(a, cls, P);
     MUT_READ("Modular<int8_t>", Modular<int8_t>) MUT_READ("Modular<uint8_t>", Modular<uint8_t>) MUT_READ("Modular<int16_t>", Modular<int16_t>) MUT_READ("Modular<uint16_t>", Modular<uint16_t>)
